@@ -135,6 +135,21 @@ def run(tier):
         full = c.subs([(x, 0.25), (y, 0.5)])
         suite.fact('circuit[%s].free_symbols' % name, c.free_symbols == {x, y} and not full.free_symbols,
                    functions=['cat.Arrow.free_symbols'])
+    vx = tensor.Box('vx', Dim(1), Dim(2), [x, x ** 2])
+    wy = tensor.Box('wy', Dim(2), Dim(1), [y, y + 1])
+    wz = tensor.Box('wz', Dim(1), Dim(1), [z])
+    for order in ([(x, 2), (y, 3), (z, 5)], [(z, 5), (y, 3), (x, 2)], [(y, 3), (x, 2), (z, 5)]):
+        dd = (vx >> wy) @ wz
+        sub = dd.subs(order)
+        suite.fact('tensor.Diagram.subs.pairs%s.free_symbols' % ([str(a) for a, _ in order],), not sub.free_symbols,
+                   what='substituting every symbol with a list of pairs leaves no free symbol, whichever box each '
+                        'symbol occurs in (left: %s)' % sorted(map(str, sub.free_symbols)),
+                   functions=['cat.Box.subs', 'monoidal.Diagram.subs'])
+        suite.identity('tensor.Diagram.subs.pairs%s.commutes' % ([str(a) for a, _ in order],), arr(sub.eval()),
+                       sub_arr(dd.eval(), order), extra=(x, y, z), functions=['cat.Box.subs'])
+    nb = cat.Box('n', cat.Ob('a'), cat.Ob('b'), data=[y, 1])
+    suite.fact('cat.Box.subs.pairs.first_var_absent', nb.subs([(x, 1), (y, 2)]).data == [2, 1],
+               functions=['cat.Box.subs'])
     d = v >> tensor.Box('m', Dim(2), Dim(2), [x, 1, y, x ** 2])
     suite.identity('tensor.Diagram.subs.commutes', arr(d.subs(x, z).eval()), sub_arr(d.eval(), x, z), extra=(x, y, z),
                    functions=['monoidal.Diagram.subs'])
